@@ -191,7 +191,7 @@ def run(p, report, tier):
     gt = FuncTree(g.node)
     rank = [n for n in ast.walk(g.node) if isinstance(n, ast.Call) and c01.callname(n) == "rankdata"]
     force = [n for n in ast.walk(g.node) if isinstance(n, ast.Assign) and isinstance(n.targets[0], ast.Subscript)
-             and _derives_from_call(g.node, n.value, "nanmax")]
+             and _derives_from_call(g.node, n.value, "nanmax", pred=_not_column_max)]
     ok_force = bool(rank) and bool(force) and all(_before(gt, f_, gt.stmt_of(rank[0])) for f_ in force)
     ok_rank = bool(rank) and any(k.arg == "method" and isinstance(k.value, ast.Constant) and k.value.value == "ordinal"
                                  for k in rank[0].keywords) and any(k.arg == "axis" and ast.unparse(k.value) == "1" for k in rank[0].keywords)
@@ -429,18 +429,30 @@ def check_subsampling_translation(p, report, sw, ent, tree, rule):
                f"{sw.file}:{sw.node.lineno}", okf)
 
 
-def _derives_from_call(fnode, expr, cname, depth=0):
+def _derives_from_call(fnode, expr, cname, depth=0, pred=None):
     """expr contains a call of `cname`, directly or through single-assignment locals"""
-    if any(isinstance(n, ast.Call) and c01.callname(n) == cname for n in ast.walk(expr)):
+    if any(isinstance(n, ast.Call) and c01.callname(n) == cname and (pred is None or pred(n)) for n in ast.walk(expr)):
         return True
     if depth > 4:
         return False
     for nm in names_in(expr):
         defs = [d for d in ast.walk(fnode) if isinstance(d, ast.Assign) and len(d.targets) == 1
                 and isinstance(d.targets[0], ast.Name) and d.targets[0].id == nm]
-        if len(defs) == 1 and _derives_from_call(fnode, defs[0].value, cname, depth + 1):
+        if len(defs) == 1 and _derives_from_call(fnode, defs[0].value, cname, depth + 1, pred):
             return True
     return False
+
+
+def _not_column_max(call):
+    """the maximum of a row (or of everything) dominates the row; a maximum along axis 0 is a
+    per-COLUMN statistic and may be smaller than other entries of the row"""
+    for k in call.keywords:
+        if k.arg == "axis":
+            v = ast.unparse(k.value).replace(" ", "")
+            return v in ("1", "-1", "None")
+    if len(call.args) > 1:
+        return ast.unparse(call.args[1]).replace(" ", "") in ("1", "-1", "None")
+    return True
 
 
 def _emptiness_guard(fnode, test):
